@@ -14,6 +14,8 @@ From Coq Require Import ZArith List Bool String.
 From FpyV Require Import Num.RealFloat Num.Float Num.CtxDef Lang.Syntax Lang.Values Lang.Sem
   Lang.Transforms.Common Lang.Transforms.WhileUnroll Lang.Transforms.ForUnroll Lang.Transforms.SplitLoop
   Lang.Transforms.IterElim Lang.Transforms.ReduceFusion Lang.Transforms.NumInt
+  Lang.Transforms.Frame Lang.Transforms.BigStepProofs Lang.Transforms.NumIntProofs Lang.Transforms.ForUnrollProofs
+  Lang.Transforms.ForUnrollStrictProofs Lang.Transforms.ForUnrollModelProofs
   Lang.Transforms.CommonProofs Lang.Transforms.WhileUnrollProofs Lang.Transforms.RefutedProofs.
 Import ListNotations.
 Open Scope string_scope.
@@ -82,3 +84,80 @@ Theorem C08_reduce_fusion_sound_refuted_target :
     cval_eqb v v' = false.
 Proof. exact reduce_fusion_sound_refuted_target. Qed.
 Print Assumptions C08_reduce_fusion_sound_refuted_target.
+
+(* ---------------------------------------------------------------- for-unroll (PEEL) *)
+(* PARTIAL.  Proved: unroll_for(f, 0, times, PEEL) -- the loop chosen is the first `for` of the function
+   and stands at the top level of its body, its length is not statically known -- preserves every run that
+   returns, for EVERY times >= 1, EVERY list length (induction on the number of chunks), every number
+   instance with exact INTEGER arithmetic (`int_exact`; the ambient context is arbitrary), for functions
+   whose body is in the allocation-free, call-free fragment (Frame.v `ok_block`): bodies that mutate the
+   iterated list in place, return early, reassign outer variables, contain while loops and loops over
+   existing lists are covered.
+   MISSING: bodies / continuations that allocate lists or call functions (the simulation then needs a
+   renaming of store locations, not only extra cells); loops nested in other statements or selected by
+   cursor / all; STRICT at the run level (block level: C08_strict_block_sim); the static-size specialisations; `times` copies with renamed nested temporaries. *)
+Theorem C08_for_unroll_peel_sound_partial :
+  forall (N : numops), int_exact N ->
+  forall P f fn pre p it body rest times sizes fuel args c v,
+    lookup_fn P f = Some fn ->
+    f_body fn = (pre ++ SFor p it body :: rest)%list ->
+    forallb no_for pre = true -> nth 0 sizes None = None ->
+    ok_block (map (gen_name (max_len (func_names fn))) (seq 0 (times + 6))) (f_body fn) = true ->
+    run N P fuel f args c = ROk v ->
+    exists fuel', run N (prog_update P f (for_unroll (SelIdx 0) (S times) false sizes)) fuel' f args c = ROk v.
+Proof. exact for_unroll_peel_sound_partial. Qed.
+Print Assumptions C08_for_unroll_peel_sound_partial.
+
+(* the emitted schema simulates the loop and its continuation from ANY pair of environments that agree
+   outside the temporaries and any store with extra cells appended (the block-level statement) *)
+Theorem C08_peel_block_sim :
+  forall (N : numops), int_exact N ->
+  forall (P P' : program) (X : list ident) (t nn m r idx : ident) (offs : list ident)
+         (p : pat) (it : expr) (body rest : block),
+    (forall y, In y (t :: nn :: m :: r :: idx :: offs) -> ok_id X y = false) ->
+    NoDup (t :: nn :: m :: r :: idx :: offs) ->
+    ok_pat X p = true -> ok_expr X it = true -> ok_block X body = true -> ok_block X rest = true ->
+    forall n s s' mu g0 C o mu_f,
+      agree X s s' ->
+      exec_block N P n s mu C (SFor p it body :: rest) = ROk (o, mu_f) ->
+      exists o' g, EvB N P' s' (mu ++ g0)%list C (peel_block t nn m r idx offs p it body ++ rest)%list (o', (mu_f ++ g)%list)
+                   /\ out_rel X o o'.
+Proof. exact peel_block_sim. Qed.
+Print Assumptions C08_peel_block_sim.
+
+(* STRICT, block level: when the length is a multiple of the unroll factor the asserted schema simulates the loop *)
+Theorem C08_strict_block_sim :
+  forall (N : numops), int_exact N ->
+  forall (P P' : program) (X : list ident) (t nn idx : ident) (offs : list ident)
+         (p : pat) (it : expr) (body rest : block),
+    (forall y, In y (t :: nn :: idx :: offs) -> ok_id X y = false) ->
+    NoDup (t :: nn :: idx :: offs) ->
+    ok_pat X p = true -> ok_expr X it = true -> ok_block X body = true -> ok_block X rest = true ->
+    forall n s s' mu g0 C o mu_f,
+      agree X s s' ->
+      (forall m vi mui l vs, eval N P m s mu C it = ROk (vi, mui) -> as_list mui vi = ROk (l, vs) ->
+                             (List.length vs mod List.length (idx :: offs) = 0)%nat) ->
+      exec_block N P n s mu C (SFor p it body :: rest) = ROk (o, mu_f) ->
+      exists o' g, EvB N P' s' (mu ++ g0)%list C (strict_block t nn idx offs p it body ++ rest)%list (o', (mu_f ++ g)%list)
+                   /\ out_rel X o o'.
+Proof. exact strict_block_sim. Qed.
+Print Assumptions C08_strict_block_sim.
+
+(* the hypothesis on the number instance is satisfiable: the instance of the correspondence runs *)
+Theorem C08_int_exact_inst : int_exact c08_numops.
+Proof. exact c08_int_exact. Qed.
+Print Assumptions C08_int_exact_inst.
+
+(* the hypotheses of the for-unroll theorem hold for a function that mutates the iterated list and returns early *)
+Theorem C08_for_unroll_nonvacuous :
+  f_body F_for = ([SAssign (PVar "acc") (int_lit 0)] ++ SFor (PVar "x") (EVar "xs")
+       [SIf1 (ECompare [CGt] [EVar "x"; int_lit 2]) [SReturn (ETuple [EVar "acc"; EVar "xs"])];
+        SIndexAssign "xs" [int_lit 0] (EVar "acc");
+        SAssign (PVar "acc") (EOp2 OAdd (EVar "acc") (EVar "x"))] :: [SReturn (ETuple [EVar "acc"; EVar "xs"])])%list /\
+  ok_block (map (gen_name (max_len (func_names F_for))) (seq 0 (2 + 6))) (f_body F_for) = true /\
+  run c08_numops P_for 100 "f" [CList [nz 1; nz 2; nz 1; nz 3; nz 1]] None
+    = ROk (CTuple [nz 4; CList [nz 3; nz 2; nz 1; nz 3; nz 1]]) /\
+  run c08_numops (prog_update P_for "f" (for_unroll (SelIdx 0) 3 false [])) 100 "f" [CList [nz 1; nz 2; nz 1; nz 3; nz 1]] None
+    = ROk (CTuple [nz 4; CList [nz 3; nz 2; nz 1; nz 3; nz 1]]).
+Proof. exact for_unroll_nonvacuous. Qed.
+Print Assumptions C08_for_unroll_nonvacuous.
